@@ -368,12 +368,13 @@ var _ = resp.Cmd
 
 func checkC09(r *verdict.Run) {
 	r.Rule = "(1) random transaction programs on one connection (any order of MULTI/EXEC/DISCARD/WATCH/UNWATCH, queued commands of all families incl. run-time failures, queue-time rejections, blocking commands with timeout 0, SELECT) with a second connection interfering, in lock step with the reference model: QUEUED replies, nothing visible before EXEC (state compared after every step through an observer connection), EXEC array per queued command or EXECABORT/null, state machine after EXEC/DISCARD, misuse errors; " +
-		"(2) isolation under concurrency: 4 writers run transactions that keep invariants (x = y, a token in exactly one key, an element in exactly one list) while 4 readers check them with atomic multi-key reads, with yields injected between the commands of EXEC; (3) canary liveness after every program; (4) commands with locks of their own (CLIENT LIST/INFO/KILL/UNBLOCK, INFO, FLUSHALL, SELECT, KEYS, COPY ...) inside transactions on four connections and outside on four others at the same time: every command must be answered; (6) directed programs in lock step with the model: every blocking command (timeouts 0 and 30, empty and non-empty source) queued after queued SELECTs to a used, a never used and the own database, followed by further queued commands - EXEC must answer everything at once, in order; (7) a connection that is killed (by itself through a queued CLIENT KILL ... SKIPME no at any position, or by another client while its EXEC is parked between two commands) still runs its whole queue: afterwards all of the transaction's writes are there; (8) a fault (panic) injected at the handler of one queued command, at every position of the queue: EXEC still answers one reply per command - an error for that one -, the others take effect and the connection is back in normal mode; (5) isolation against other databases: transactions in database 0 (five INCRs of one key must answer consecutive numbers, x and y are set together) while connections in other databases run FLUSHALL (plain, queued, ASYNC) and transactions with a queued SELECT 0. " +
+		"(2) isolation under concurrency: 4 writers run transactions that keep invariants (x = y, a token in exactly one key, an element in exactly one list) while 4 readers check them with atomic multi-key reads, with yields injected between the commands of EXEC; (3) canary liveness after every program; (4) commands with locks of their own (CLIENT LIST/INFO/KILL/UNBLOCK, INFO, FLUSHALL, SELECT, KEYS, COPY ...) inside transactions on four connections and outside on four others at the same time: every command must be answered; (6) directed programs in lock step with the model: every blocking command (timeouts 0 and 30, empty and non-empty source) queued after queued SELECTs to a used, a never used and the own database, followed by further queued commands - EXEC must answer everything at once, in order; (7) a connection that is killed (by itself through a queued CLIENT KILL ... SKIPME no at any position, or by another client while its EXEC is parked between two commands) still runs its whole queue: afterwards all of the transaction's writes are there; (8) a fault (panic) injected at the handler of one queued command, at every position of the queue: EXEC still answers one reply per command - an error for that one -, the others take effect and the connection is back in normal mode; (9) commands queued before another client flushes the database and re-creates the keys, executed afterwards (DEL/UNLINK/GETDEL/last-element pops/RENAME/KEYS/DBSIZE/SCAN...): replies and state as if EXEC ran after the flush; (5) isolation against other databases: transactions in database 0 (five INCRs of one key must answer consecutive numbers, x and y are set together) while connections in other databases run FLUSHALL (plain, queued, ASYNC) and transactions with a queued SELECT 0. " +
 		"distinct = (command, MULTI state, outcome class) + EXEC element classes + isolation runs"
 	c09Sequential(r, tierPick(r, 400, 8000))
 	c09BlockingInsideTransactions(r)
 	c09KilledMidTransaction(r)
 	c09FaultInQueuedCommand(r)
+	queuedAcrossFlush(r, "txn")
 	c09Isolation(r, tierPick(r, 6, 40), false)
 	c09Introspection(r, tierPick(r, 8, 60))
 	c09IsolationAcrossDatabases(r, tierPick(r, 6, 40))
@@ -871,6 +872,70 @@ func c09FaultInQueuedCommand(r *verdict.Run) {
 				r.Distinct("fault-in-queued-command/" + name)
 			}
 			cn.Close()
+		}
+	}
+}
+
+// queuedAcrossFlush: a command is queued in MULTI, then ANOTHER client flushes the database (FLUSHDB, FLUSHALL, from
+// the same or another database) and re-creates the keys, then EXEC runs. Whatever a queued command remembered from
+// the time it was queued, it executes in the world as it is at EXEC: replies and the resulting state are those of the
+// sequential order flush < re-create < EXEC (the reference model executes exactly that).
+func queuedAcrossFlush(r *verdict.Run, monitor string) {
+	c, err := startChild(false)
+	if err != nil {
+		r.Inconclusive("cannot start child")
+		return
+	}
+	defer func() { c.Stop() }()
+	queued := [][]string{{"DEL", "k"}, {"UNLINK", "k", "l"}, {"GETDEL", "k"}, {"LPOP", "l"}, {"RPOP", "l", "5"}, {"HDEL", "h", "f"}, {"SREM", "s", "m"}, {"RENAME", "k", "k2"}, {"LMOVE", "l", "l2", "LEFT", "RIGHT"},
+		{"SMOVE", "s", "s2", "m"}, {"KEYS", "*"}, {"DBSIZE"}, {"RANDOMKEY"}, {"SCAN", "0", "COUNT", "100"}, {"EXISTS", "k", "l", "h", "s"}, {"COPY", "k", "k3"}, {"SET", "k", "mine"}, {"APPEND", "k", "+"}, {"EXPIRE", "k", "-1"},
+		{"SINTERSTORE", "s", "s", "nokey"}, {"LTRIM", "l", "5", "9"}, {"SORT", "l", "ALPHA", "STORE", "l3"}, {"TYPE", "k"}, {"FLUSHDB"}}
+	recreate := [][]string{{"SET", "k", "after"}, {"RPUSH", "l", "e1"}, {"HSET", "h", "f", "v2"}, {"SADD", "s", "m"}}
+	for qi, q := range queued {
+		for fi, flush := range [][]string{{"FLUSHDB"}, {"FLUSHALL"}, {"SELECT", "3", "FLUSHALL"}} {
+			if !c.Alive() {
+				c.Stop()
+				if c, err = startChild(false); err != nil {
+					return
+				}
+			}
+			d, err := newDiffEnv(r, c, []string{"k", "k2", "k3", "l", "l2", "l3", "h", "s", "s2"})
+			if err != nil {
+				r.Inconclusive("infra: " + err.Error())
+				return
+			}
+			d.monitor = monitor
+			d.addConn()
+			ok := true
+			step := func(ci int, args ...string) {
+				if ok {
+					_, ok = d.stepOn(ci, args)
+					r.Eval(1)
+				}
+			}
+			for _, p := range [][]string{{"SET", "k", "before"}, {"RPUSH", "l", "b1", "b2"}, {"HSET", "h", "f", "v1", "g", "w"}, {"SADD", "s", "m", "n"}} {
+				step(1, p...)
+			}
+			step(0, "MULTI")
+			step(0, q...)
+			step(0, "GET", "k")
+			if len(flush) == 3 {
+				step(1, flush[0], flush[1])
+				step(1, flush[2])
+				step(1, "SELECT", "0")
+			} else {
+				step(1, flush...)
+			}
+			for _, p := range recreate {
+				step(1, p...)
+			}
+			step(0, "EXEC")
+			step(1, "DBSIZE")
+			if ok && !d.lastDiverged {
+				r.Distinct(fmt.Sprintf("queued-across-flush/%s/%d", strings.ToLower(q[0]), fi))
+			}
+			d.close()
+			_ = qi
 		}
 	}
 }
